@@ -170,12 +170,16 @@ Proof.
 Qed.
 
 (* hypotheses on the block tree; [ts_pos] is kept apart (F-23) *)
-Record tree_ok0 (tree : index) (W : Z) : Prop := {
+(* every item of the block is inside its validity interval (chain.Base.Execute / C10 for
+   transactions, Node.Verify itself for DSMR chunk certificates) *)
+Definition interval_ok (W : Z) (b : block) : Prop :=
+  forall x e, In (x, e) (b_items b) -> b_ts b <= e <= b_ts b + W.
+
+Record tree_ok0 (tree : index) : Prop := {
   t_id : forall i b, tree i = Some b -> b_id b = i;
   t_parent : forall i b, tree i = Some b -> b_height b <> 0%N ->
      exists p, tree (b_parent b) = Some p /\ b_height b = N.succ (b_height p) /\ b_ts p <= b_ts b;
   t_nonneg : forall i b, tree i = Some b -> 0 <= b_ts b;
-  t_interval : forall i b x e, tree i = Some b -> In (x, e) (b_items b) -> b_ts b <= e <= b_ts b + W;
   t_expiry : forall i j b b' x e e', tree i = Some b -> tree j = Some b' ->
      In (x, e) (b_items b) -> In (x, e') (b_items b') -> e = e'
 }.
@@ -184,12 +188,12 @@ Definition ts_pos (tree : index) : Prop :=
 
 Section Tree.
 Variables (tree : index) (W : Z).
-Hypothesis TOK : tree_ok0 tree W.
+Hypothesis TOK : tree_ok0 tree.
 
 Definition in_tree (b : block) : Prop := tree (b_id b) = Some b.
 
 Lemma tree_in i b : tree i = Some b -> in_tree b.
-Proof. intros H. unfold in_tree. rewrite (t_id _ _ TOK _ _ H). exact H. Qed.
+Proof. intros H. unfold in_tree. rewrite (t_id _ TOK _ _ H). exact H. Qed.
 
 (* [reach b a]: a is b or an ancestor of b *)
 Inductive reach : block -> block -> Prop :=
@@ -209,7 +213,7 @@ Proof. intros Hb H. induction H as [b | b p a Hh Hp Hr IH]; [exact Hb | apply IH
 Lemma reach_ts b a : in_tree b -> reach b a -> b_ts a <= b_ts b.
 Proof.
   intros Hb H. induction H as [b | b p a Hh Hp Hr IH]; [lia|].
-  destruct (t_parent _ _ TOK _ _ Hb Hh) as [p' [Hp' [_ Hts]]].
+  destruct (t_parent _ TOK _ _ Hb Hh) as [p' [Hp' [_ Hts]]].
   rewrite Hp in Hp'. inversion Hp'; subst p'.
   specialize (IH (tree_in _ _ Hp)). lia.
 Qed.
@@ -217,7 +221,7 @@ Qed.
 Lemma reach_height b a : in_tree b -> reach b a -> (a = b \/ (b_height a < b_height b)%N).
 Proof.
   intros Hb H. induction H as [b | b p a Hh Hp Hr IH]; [left; reflexivity|].
-  destruct (t_parent _ _ TOK _ _ Hb Hh) as [p' [Hp' [Hhe _]]].
+  destruct (t_parent _ TOK _ _ Hb Hh) as [p' [Hp' [Hhe _]]].
   rewrite Hp in Hp'. inversion Hp'; subst p'.
   right. destruct (IH (tree_in _ _ Hp)) as [Heq|Hlt]; [subst; lia | lia].
 Qed.
@@ -232,9 +236,9 @@ Proof.
     assert (reach b a) as Hba by (eapply reach_step; eauto).
     destruct (reach_height _ _ Hb Hba) as [Heq|Hlt]; [|lia].
     subst a. destruct (reach_height _ _ (tree_in _ _ Hp) Hr) as [Heq|Hlt].
-    + subst p. destruct (t_parent _ _ TOK _ _ Hb Hh) as [p' [Hp' [Hhe _]]].
+    + subst p. destruct (t_parent _ TOK _ _ Hb Hh) as [p' [Hp' [Hhe _]]].
       rewrite Hp in Hp'. inversion Hp'; subst p'. lia.
-    + destruct (t_parent _ _ TOK _ _ Hb Hh) as [p' [Hp' [Hhe _]]].
+    + destruct (t_parent _ TOK _ _ Hb Hh) as [p' [Hp' [Hhe _]]].
       rewrite Hp in Hp'. inversion Hp'; subst p'. lia.
   - rewrite Hp in Hp'. inversion Hp'; subst p'. apply IH; [eapply tree_in; exact Hp | exact Hr' | exact Hle].
 Qed.
@@ -247,7 +251,7 @@ Proof.
   - destruct (N.eqb_spec a b) as [Heq|Hne].
     + subst. rewrite Ha in Hb. inversion Hb. constructor.
     + rewrite Hb in H. destruct (N.eqb_spec (b_height bb) 0); [discriminate|].
-      destruct (t_parent _ _ TOK _ _ Hb n) as [p [Hp _]].
+      destruct (t_parent _ TOK _ _ Hb n) as [p [Hp _]].
       eapply reach_step; [exact n | exact Hp | eapply IH; eauto].
 Qed.
 
@@ -305,21 +309,22 @@ Definition no_repeat_below (b p : block) : Prop :=
   NoDup (ids (b_items b)) /\
   forall a x, reach p a -> In x (ids (b_items b)) -> ~ In x (ids (b_items a)).
 
-Lemma oldest_le b a x e : in_tree b -> in_tree a ->
+Lemma oldest_le b a x e : interval_ok W b -> interval_ok W a -> in_tree a ->
   In (x, e) (b_items b) -> In (x, e) (b_items a) -> oldest_allowed W (b_ts b) <= b_ts a.
 Proof.
-  intros Hb Ha Hxb Hxa. unfold oldest_allowed.
-  pose proof (t_interval _ _ TOK _ _ _ _ Hb Hxb). pose proof (t_interval _ _ TOK _ _ _ _ Ha Hxa).
-  pose proof (t_nonneg _ _ TOK _ _ Ha). lia.
+  intros Hib Hia Ha Hxb Hxa. unfold oldest_allowed.
+  pose proof (Hib _ _ Hxb). pose proof (Hia _ _ Hxa).
+  pose proof (t_nonneg _ TOK _ _ Ha). lia.
 Qed.
 
 Lemma verify_sound idx w b p lb :
   ts_pos tree -> sub idx tree -> in_tree lb -> last_h w = b_height lb -> seen_complete w lb ->
   in_tree b -> b_height b <> 0%N -> tree (b_parent b) = Some p -> reach p lb ->
+  interval_ok W b -> (forall a, reach p a -> interval_ok W a) ->
   verify_replay idx w W b = 0%N -> no_repeat_below b p.
 Proof.
-  intros Hpos Hsub Hlb Hlh Hsc Hb Hh Hp Hrl Hv. unfold verify_replay in Hv.
-  destruct (t_parent _ _ TOK _ _ Hb Hh) as [p' [Hp' [Hhe Hts]]].
+  intros Hpos Hsub Hlb Hlh Hsc Hb Hh Hp Hrl Hib Hip Hv. unfold verify_replay in Hv.
+  destruct (t_parent _ TOK _ _ Hb Hh) as [p' [Hp' [Hhe Hts]]].
   rewrite Hp in Hp'. inversion Hp'; subst p'.
   pose proof (tree_in _ _ Hp) as Hpin.
   assert ((b_height lb <= b_height p)%N) as Hlp
@@ -328,24 +333,24 @@ Proof.
   destruct (has_dup [] (ids (b_items b))) eqn:Hd; [discriminate|].
   destruct (idx (b_parent b)) as [q|] eqn:Hq; [|discriminate].
   apply Hsub in Hq. rewrite Hp in Hq. inversion Hq; subst q.
-  set (r := walk idx w (oldest_allowed W (b_ts b)) (b_items b) true (fuel_of p) p (no_marks (length (b_items b)))) in Hv.
-  destruct (snd r) eqn:Herr; [discriminate|].
-  destruct (existsb (fun x => x) (fst r)) eqn:Hany; [discriminate|].
+  destruct (walk idx w (oldest_allowed W (b_ts b)) (b_items b) true (fuel_of p) p
+                 (no_marks (length (b_items b)))) as [m' er] eqn:Hwk.
+  cbn [fst snd] in Hv.
+  destruct er; [discriminate|].
+  destruct (existsb (fun x => x) m') eqn:Hany; [discriminate|].
   split; [apply (has_dup_spec _ _ Hd)|].
   intros a x Hra Hxb Hxa.
   apply in_ids in Hxb. destruct Hxb as [e Hxb]. apply in_ids in Hxa. destruct Hxa as [e' Hxa].
   pose proof (reach_in _ _ Hpin Hra) as Hain.
-  assert (e' = e) as -> by (eapply (t_expiry _ _ TOK); [exact Hain | exact Hb | exact Hxa | exact Hxb]).
-  pose proof (t_interval _ _ TOK _ _ _ _ Hb Hxb) as Hint.
+  assert (e' = e) as -> by (eapply (t_expiry _ TOK); [exact Hain | exact Hb | exact Hxa | exact Hxb]).
+  pose proof (Hib _ _ Hxb) as Hint.
   pose proof (Hpos _ _ Hb Hh) as Hpos'.
   pose proof (reach_ts _ _ Hpin Hrl) as Htl.
-  eapply (walk_sound idx w _ (b_items b) lb Hsub Hlb Hlh Hsc (fuel_of p) p _ (fst r) Hpin Hrl
-            (anyb_repeat _)); [apply repeat_length | | exact Hany | exact Hra | exact Hxb | exact Hxa | | | ].
-  - unfold r in *. destruct (walk idx w (oldest_allowed W (b_ts b)) (b_items b) true (fuel_of p) p
-                                  (no_marks (length (b_items b)))) as [m' er]. cbn [fst snd] in *. subst er. reflexivity.
-  - eapply oldest_le; eauto.
-  - lia.
-  - lia.
+  assert (oldest_allowed W (b_ts b) <= b_ts a) as Hold by exact (oldest_le b a x e Hib (Hip a Hra) Hain Hxb Hxa).
+  assert (e <> 0) as He by lia.
+  assert (b_ts lb <= e) as Hle by lia.
+  exact (walk_sound idx w _ (b_items b) lb Hsub Hlb Hlh Hsc (fuel_of p) p _ m' Hpin Hrl
+            (anyb_repeat _) (repeat_length _ _) Hwk Hany a x e Hra Hxb Hxa Hold He Hle).
 Qed.
 
 (* ------------------------------------------------------------------ Accept keeps the invariant *)
@@ -360,7 +365,7 @@ Lemma from_tree_expiry w x e e' a : seen_from_tree w -> in_tree a ->
   In (x, e') (seen w) -> In (x, e) (b_items a) -> e' = e.
 Proof.
   intros Hs Ha Hin Hxa. destruct (Hs _ _ Hin) as [i [b [Hb Hxb]]].
-  eapply (t_expiry _ _ TOK); eauto.
+  exact (t_expiry _ TOK _ _ _ _ _ _ _ Hb Ha Hxb Hxa).
 Qed.
 
 Lemma accept_complete w lb b :
@@ -372,10 +377,10 @@ Proof.
   destruct (reach_inv _ _ Hra) as [Heq | [Hh [p [Hp Hr]]]].
   - subst a. cbn [accept seen]. eapply em_add_has_new; eauto.
   - rewrite (Hpar Hh) in Hp. inversion Hp; subst p.
-    destruct (t_parent _ _ TOK _ _ Hb Hh) as [p' [Hp' [_ Hts]]]. rewrite (Hpar Hh) in Hp'. inversion Hp'; subst p'.
+    destruct (t_parent _ TOK _ _ Hb Hh) as [p' [Hp' [_ Hts]]]. rewrite (Hpar Hh) in Hp'. inversion Hp'; subst p'.
     assert (em_has (seen w) x = true) as Hold by (eapply Hsc; eauto; lia).
     apply em_has_In in Hold. destruct Hold as [e' Hin].
-    assert (e' = e) as -> by (eapply from_tree_expiry; eauto; eapply reach_in; eauto).
+    assert (e' = e) as -> by exact (from_tree_expiry w x e e' a Hft (reach_in _ _ Hlb Hr) Hin Hxa).
     cbn [accept seen]. apply em_has_In. exists e. apply em_add_incl. apply em_set_min_In. cbn [snd]. tauto.
 Qed.
 
@@ -410,8 +415,8 @@ Proof.
   assert (in_tree a) as Ha by (apply HL, in_or_app; right; left; reflexivity).
   assert (em_has (seen (accept w1 a)) x = true) as Hh by (cbn [accept seen]; eapply em_add_has_new; eauto).
   apply em_has_In in Hh. destruct Hh as [e' Hin].
-  assert (e' = e) as ->.
-  { eapply (from_tree_expiry (accept w1 a)); eauto. apply accept_from_tree; assumption. }
+  assert (e' = e) as ->
+    by exact (from_tree_expiry (accept w1 a) x e e' a (accept_from_tree w1 a Ha Hw1) Ha Hin Hxa).
   apply em_has_In. exists e. apply fold_accept_keep; assumption.
 Qed.
 
@@ -459,13 +464,14 @@ Proof.
 Qed.
 
 Lemma populate_complete idx head w :
-  sub idx tree -> in_tree head -> new_window idx W head = (w, true) ->
+  sub idx tree -> in_tree head -> (forall a, reach head a -> interval_ok W a) ->
+  new_window idx W head = (w, true) ->
   last_h w = b_height head /\ seen_complete w head /\ seen_from_tree w.
 Proof.
-  intros Hsub Hhead Hnw. unfold new_window, populate in Hnw. cbn [fst snd] in Hnw.
+  intros Hsub Hhead Hpi Hnw. unfold new_window, populate in Hnw. cbn [fst snd] in Hnw.
   destruct (pop_walk idx (oldest_allowed W (b_ts head)) (fuel_of head) head [head]) as [L full] eqn:Hpw.
-  cbn [fst snd] in Hnw. inversion Hnw; subst full. clear Hnw.
-  destruct (pop_walk_spec idx _ head Hsub Hhead (fuel_of head) head [head] L) as [[pre Hpre] [HL Hcov]].
+  cbn [fst snd] in Hnw. inversion Hnw; subst full w. clear Hnw.
+  destruct (pop_walk_spec idx (oldest_allowed W (b_ts head)) head Hsub Hhead (fuel_of head) head [head] L) as [[pre Hpre] [HL Hcov]].
   - exists []. reflexivity.
   - intros b [<-|[]]. constructor.
   - constructor.
@@ -480,7 +486,7 @@ Proof.
       pose proof (reach_in _ _ Hhead Hra) as Hain.
       assert (In a L) as Hin.
       { apply Hcov; [exact Hra|]. unfold oldest_allowed.
-        pose proof (t_interval _ _ TOK _ _ _ _ Hain Hxa). pose proof (t_nonneg _ _ TOK _ _ Hain). lia. }
+        pose proof (Hpi a Hra _ _ Hxa). pose proof (t_nonneg _ TOK _ _ Hain). lia. }
       apply in_split in Hin. destruct Hin as [L1 [L2 HLeq]].
       rewrite HLeq. apply fold_accept_has with (e := e); try assumption.
       * rewrite <- HLeq. exact HLin.
@@ -493,12 +499,13 @@ Qed.
 Definition clean (b : block) : Prop :=
   (forall a, reach b a -> NoDup (ids (b_items a))) /\
   (forall a1 a2 x, reach b a1 -> reach a1 a2 -> a1 <> a2 ->
-     In x (ids (b_items a1)) -> ~ In x (ids (b_items a2))).
+     In x (ids (b_items a1)) -> ~ In x (ids (b_items a2))) /\
+  (forall a, reach b a -> interval_ok W a).
 
 Lemma clean_child b p : in_tree b -> b_height b <> 0%N -> tree (b_parent b) = Some p ->
-  clean p -> no_repeat_below b p -> clean b.
+  clean p -> interval_ok W b -> no_repeat_below b p -> clean b.
 Proof.
-  intros Hb Hh Hp [C1 C2] [N1 N2]. split.
+  intros Hb Hh Hp [C1 [C2 C3]] Hib [N1 N2]. split; [|split].
   - intros a Hra. destruct (reach_inv _ _ Hra) as [->|[_ [p' [Hp' Hr]]]]; [exact N1|].
     rewrite Hp in Hp'. inversion Hp'; subst p'. apply C1. exact Hr.
   - intros a1 a2 x Hr1 Hr2 Hne Hx1.
@@ -506,7 +513,15 @@ Proof.
     + destruct (reach_inv _ _ Hr2) as [Heq|[_ [p' [Hp' Hr]]]]; [congruence|].
       rewrite Hp in Hp'. inversion Hp'; subst p'. apply N2; assumption.
     + rewrite Hp in Hp'. inversion Hp'; subst p'. eapply C2; eauto.
+  - intros a Hra. destruct (reach_inv _ _ Hra) as [->|[_ [p' [Hp' Hr]]]]; [exact Hib|].
+    rewrite Hp in Hp'. inversion Hp'; subst p'. apply C3. exact Hr.
 Qed.
+
+(* the verification function of the component: accepting implies the replay check passed and the
+   block's items are inside their validity interval *)
+Variable vf : vfun.
+Hypothesis VF : forall idx w b, in_tree b -> vf tree idx w W b = 0%N ->
+  verify_replay idx w W b = 0%N /\ interval_ok W b.
 
 Record Inv (s : sys) (e : eng) : Prop := {
   i_last : exists lb, tree (e_last e) = Some lb /\ last_h (s_win s) = b_height lb /\
@@ -524,7 +539,7 @@ Proof.
 Qed.
 
 Lemma step_inv (POS : ts_pos tree) s e o e' :
-  Inv s e -> eng_step tree e o (snd (step tree W s o)) = Some e' -> Inv (fst (step tree W s o)) e'.
+  Inv s e -> eng_step tree e o (snd (step vf tree W s o)) = Some e' -> Inv (fst (step vf tree W s o)) e'.
 Proof.
   intros [[lb [Hlb [Hlh [Hsc Hft]]]] Hever Hver Hle] Hes.
   pose proof (tree_in _ _ Hlb) as Hlbin.
@@ -537,17 +552,20 @@ Proof.
               is_anc tree (anc_fuel tree (b_parent blk)) (e_last e) (b_parent blk)) eqn:Hc; [|discriminate].
     apply andb_true_iff in Hc. destruct Hc as [Hc Hanc]. apply andb_true_iff in Hc. destruct Hc as [Hh Hpar].
     apply negb_true_iff in Hh. apply N.eqb_neq in Hh.
-    destruct (N.eqb_spec (verify_replay (idx_of tree (s_floor s)) (s_win s) W blk) 0) as [Hv|Hv];
+    destruct (N.eqb_spec (vf tree (idx_of tree (s_floor s)) (s_win s) W blk) 0) as [Hv|Hv];
       inversion Hes; subst e'; clear Hes.
     + assert (In (b_parent blk) (e_ever e)) as Hpe.
       { apply orb_true_iff in Hpar. destruct Hpar as [Hm|Hm].
         - apply Hver, mem_In. exact Hm.
         - apply N.eqb_eq in Hm. rewrite Hm. exact Hle. }
       destruct (Hever _ Hpe) as [pb [Hpb Hclean]].
-      assert (reach pb lb) as Hrl by (eapply is_anc_reach; eauto).
+      assert (reach pb lb) as Hrl by exact (is_anc_reach _ _ _ _ _ Hlb Hpb Hanc).
       assert (clean blk) as Hcb.
-      { eapply clean_child; eauto; [eapply tree_in; eauto|].
-        eapply verify_sound; eauto; [apply idx_of_sub | eapply tree_in; eauto]. }
+      { pose proof (tree_in _ _ Hb) as Hbin.
+        destruct (VF _ _ _ Hbin Hv) as [Hv' Hib].
+        apply (clean_child blk pb Hbin Hh Hpb Hclean Hib).
+        exact (verify_sound _ _ blk pb lb POS (idx_of_sub tree _) Hlbin Hlh Hsc Hbin Hh Hpb Hrl Hib
+                 (proj2 (proj2 Hclean)) Hv'). }
       constructor; cbn [e_last e_ever e_verified].
       * exists lb. repeat split; assumption.
       * intros v [<-|Hin]; [exists blk; split; assumption | apply Hever; exact Hin].
@@ -563,7 +581,7 @@ Proof.
     pose proof (tree_in _ _ Hb) as Hbin.
     constructor; cbn [e_last e_ever e_verified s_win].
     + exists blk. split; [exact Hb|]. split; [reflexivity|]. split.
-      * eapply accept_complete; eauto. intros _. rewrite Hpar. exact Hlb.
+      * apply (accept_complete (s_win s) lb blk Hlbin Hsc Hft Hbin). intros _. rewrite Hpar. exact Hlb.
       * apply accept_from_tree; assumption.
     + exact Hever.
     + exact Hver.
@@ -585,10 +603,12 @@ Proof.
     inversion Hes; subst e'; clear Hes.
     apply andb_true_iff in Hc. destruct Hc as [Hc _]. apply andb_true_iff in Hc. destruct Hc as [Hcomp Hm].
     subst complete.
-    destruct (populate_complete _ _ _ (idx_of_sub tree _) (tree_in _ _ Hb) Hnw) as [P1 [P2 P3]].
     assert (In h (e_ever e)) as Hhe.
     { apply orb_true_iff in Hm. destruct Hm as [Hm|Hm]; [apply Hver, mem_In; exact Hm|].
       apply N.eqb_eq in Hm. rewrite Hm. exact Hle. }
+    destruct (Hever _ Hhe) as [hb [Hhb Hhclean]]. rewrite Hb in Hhb. inversion Hhb; subst hb.
+    destruct (populate_complete _ _ _ (idx_of_sub tree _) (tree_in _ _ Hb) (proj2 (proj2 Hhclean)) Hnw)
+      as [P1 [P2 P3]].
     constructor; cbn [e_last e_ever e_verified s_win].
     + exists blk. repeat split; assumption.
     + exact Hever.
@@ -600,29 +620,32 @@ Proof.
 Qed.
 
 Lemma run_inv (POS : ts_pos tree) : forall ops s e e',
-  Inv s e -> eng_run tree e ops (run tree W s ops) = Some e' ->
+  Inv s e -> eng_run tree e ops (run vf tree W s ops) = Some e' ->
   forall v, In v (e_ever e') -> exists vb, tree v = Some vb /\ clean vb.
 Proof.
   induction ops as [|o ops IH]; intros s e e' HI Hr; cbn [run eng_run] in Hr.
   - inversion Hr; subst e'. apply (i_ever _ _ HI).
-  - destruct (eng_step tree e o (snd (step tree W s o))) as [e1|] eqn:Hes; [|discriminate].
+  - destruct (eng_step tree e o (snd (step vf tree W s o))) as [e1|] eqn:Hes; [|discriminate].
     eapply IH; [eapply step_inv; eauto | exact Hr].
 Qed.
 
 Lemma inv0 g gb : tree g = Some gb -> b_height gb = 0%N -> NoDup (ids (b_items gb)) ->
-  Inv (sys0 tree W gb) (eng0 g).
+  interval_ok W gb -> Inv (sys0 tree W gb) (eng0 g).
 Proof.
-  intros Hg Hh Hnd. pose proof (tree_in _ _ Hg) as Hgin.
+  intros Hg Hh Hnd Hig. pose proof (tree_in _ _ Hg) as Hgin.
+  assert (forall a, reach gb a -> interval_ok W a) as Hpi
+    by (intros a Hra; destruct (reach_inv _ _ Hra) as [->|[Hne _]]; [exact Hig | congruence]).
   assert (new_window (idx_of tree 0%N) W gb = (fst (new_window (idx_of tree 0%N) W gb), true)) as Hnw.
   { unfold new_window, populate, fuel_of. cbn [pop_walk fst snd]. rewrite Hh. reflexivity. }
-  destruct (populate_complete _ _ _ (idx_of_sub tree _) Hgin Hnw) as [P1 [P2 P3]].
+  destruct (populate_complete _ _ _ (idx_of_sub tree _) Hgin Hpi Hnw) as [P1 [P2 P3]].
   constructor; cbn [sys0 eng0 e_last e_ever e_verified s_win].
   - exists gb. repeat split; assumption.
-  - intros v [<-|[]]. exists gb. split; [exact Hg|]. split.
+  - intros v [<-|[]]. exists gb. split; [exact Hg|]. split; [|split].
     + intros a Hra. destruct (reach_inv _ _ Hra) as [->|[Hne _]]; [exact Hnd | congruence].
     + intros a1 a2 x Hr1 Hr2 Hne. exfalso.
       destruct (reach_inv _ _ Hr1) as [->|[Hne' _]]; [|congruence].
       destruct (reach_inv _ _ Hr2) as [->|[Hne' _]]; congruence.
+    + exact Hpi.
   - intros v [].
   - left. reflexivity.
 Qed.
